@@ -25,8 +25,8 @@ RULE = ('cases = random inference-model spec (1-3 priors incl. hierarchical, sca
 ASSUMPTIONS = ['consumed draws = batches delivered to Rejection.update (deep-copied at delivery)',
                'NaN discrepancies are not generated (the statement orders by discrepancy)']
 CONFIG = {
-    'quick': {'shards': 16, 'cases': 22, 'timeout': 600, 'floor': 60},
-    'thorough': {'shards': 32, 'cases': 400, 'timeout': 3000, 'floor': 2000},
+    'quick': {'shards': 16, 'cases': 132, 'timeout': 600, 'floor': 360},
+    'thorough': {'shards': 32, 'cases': 4000, 'timeout': 5400, 'floor': 20000},
 }
 REQUIRED = ['runs_with_progress_bar', 'updates_observed', 'rows_matched', 'mode_threshold', 'mode_quantile', 'mode_n_sim',
             'ties_in_result', 'inf_consumed']
